@@ -586,10 +586,16 @@ impl<'ccx, 'tcx: 'ccx> TyGenContext<'ccx, 'tcx, '_> {
             Type::Opaque(..) => format!("{cpp_name}.AsFFI()").into(),
             Type::Struct(..) => format!("{cpp_name}.AsFFI()").into(),
             Type::Enum(..) => format!("{cpp_name}.AsFFI()").into(),
-            Type::Slice(Slice::Strs(..)) => format!(
-                // Layout of DiplomatStringView and std::string_view are guaranteed to be identical, otherwise this would be terrible
-                "{{reinterpret_cast<const diplomat::capi::DiplomatStringView*>({cpp_name}.data()), {cpp_name}.size()}}"
-            ).into(),
+            Type::Slice(Slice::Strs(encoding)) => {
+                let view = match encoding {
+                    hir::StringEncoding::UnvalidatedUtf16 => "DiplomatString16View",
+                    _ => "DiplomatStringView",
+                };
+                format!(
+                    // Layout of DiplomatStringView and std::string_view are guaranteed to be identical, otherwise this would be terrible
+                    "{{reinterpret_cast<const diplomat::capi::{view}*>({cpp_name}.data()), {cpp_name}.size()}}"
+                ).into()
+            }
             Type::Slice(..) => format!("{{{cpp_name}.data(), {cpp_name}.size()}}").into(),
             Type::DiplomatOption(ref inner) => {
                 let conversion =
